@@ -2,6 +2,7 @@
    tensors.  Property theorems only; model in Models/Unitary.v, proofs in
    Models/UnitaryProofs.v, concrete witnesses in Models/UnitaryExamples.v. *)
 From Coq Require Import ZArith QArith List String.
+Open Scope string_scope.
 From ADC Require Import Core.Scalar Core.Index Core.Expr.
 From ADC Require Import Models.Unitary Models.UnitaryProofs Models.UnitaryExamples.
 
@@ -37,12 +38,13 @@ Theorem C20_unitary_step_sound :
 Proof. exact unitary_step_sound. Qed.
 Print Assumptions C20_unitary_step_sound.
 
-(* Without that side condition the statement is false for the code as it is
-   (U_pq^2 -> 1 although the value is the dimension of the space). *)
+(* Without that side condition the statement about the relation is false
+   (U_pq U_pq -> 1 although the value is the dimension of the space); the
+   repaired code and the executable pass skip exactly these pairs, see
+   C20_unitary_pass_safe. *)
 Theorem C20_unitary_step_sound_nosidecond_refuted :
   exists (S : Scalar) (T : tmodel S) name tg t p q r t' r0,
     unitary_step name tg t p q r t' /\
-    unitary_pass name (Some tg) t = RStep (false, p, q, r) t' /\
     same_sort q p = true /\ same_sort r p = true /\
     orthogonal S T name (irange S T p) /\
     (forall x, In x tg -> In (r0 x) (irange S T x)) /\
@@ -64,14 +66,61 @@ Theorem C20_unitary_step_square_value :
 Proof. exact unitary_step_square_value. Qed.
 Print Assumptions C20_unitary_step_square_value.
 
-(* The same through the whole recursion of the model of simplify_term_unitary. *)
-Theorem C20_unitary_iter_value_refuted :
-  exists (S : Scalar) (T : tmodel S) name tg t t' r0,
-    unitary_iter 3 name (Some tg) t = Some t' /\
-    (forall sp sn, orthogonal S T name (rng T sp sn)) /\
-    eval_term S T tg r0 t <> eval_term S T tg r0 t'.
-Proof. exact unitary_iter_value_refuted. Qed.
-Print Assumptions C20_unitary_iter_value_refuted.
+(* Every step taken by the executable pass satisfies that side condition (the
+   guard added to the code skips the other pairs) ... *)
+Theorem C20_unitary_pass_safe :
+  forall name tg t pos p q r t',
+    unitary_pass_tg name tg t = RStep (pos, p, q, r) t' ->
+    q <> r \/ In q tg \/ In q (term_idx t').
+Proof. exact unitary_pass_safe. Qed.
+Print Assumptions C20_unitary_pass_safe.
+
+(* ... so the whole executable recursion (pair replacement, multiplying out a
+   remaining sum, recursion on every resulting term) preserves the value for
+   provided targets: the value of the input term is the sum of the values of
+   the returned terms, for every model in which the tensor is orthogonal on
+   the sort of its indices and every target assignment within ranges.  The
+   only premise is the well-formedness of the input ([wfb]: the tensor's
+   indices lie in one sort; sum factors are homogeneous). *)
+Theorem C20_unitary_iter_sound :
+  forall (S : Scalar) (T : tmodel S) name sp sn tg fuel t out r0,
+    unitary_iter fuel name (Some tg) t = Some out ->
+    wfb name sp sn tg t = true ->
+    orthogonal S T name (rng T sp sn) ->
+    (forall x, In x tg -> In (r0 x) (irange S T x)) ->
+    eval_term S T tg r0 t = ksum out (eval_term S T tg r0).
+Proof. exact unitary_iter_sound. Qed.
+Print Assumptions C20_unitary_iter_sound.
+
+(* The call tree observed in the implementation (any factor order between the
+   levels, provided or Einstein targets), once accepted by the boolean checker,
+   preserves the value. *)
+Theorem C20_check_tree_sound :
+  forall (S : Scalar) (T : tmodel S) name sp sn prov fuel n r0,
+    check_tree fuel name sp sn prov n = true ->
+    orthogonal S T name (rng T sp sn) ->
+    (forall x, In x (targets_of prov (oroot n)) -> In (r0 x) (irange S T x)) ->
+    eval_term S T (targets_of prov (oroot n)) r0 (oroot n)
+    = ksum (leaves fuel n) (eval_term S T (targets_of prov (oroot n)) r0).
+Proof. exact check_tree_sound. Qed.
+Print Assumptions C20_check_tree_sound.
+
+(* Regression examples on the inputs of the three repaired defects. *)
+Theorem C20_square_regression :
+  unitary_pass "U" (Some nil) sq_term = RNone /\
+  unitary_pass "U" None sq_term = RNone /\
+  unitary_iter 3 "U" (Some nil) sq_term = Some (sq_term :: nil) /\
+  unitary_iter 3 "U" None sq_term = Some (sq_term :: nil) /\
+  unitary_iter 3 "U" (Some (iq :: nil)) sq_term = Some (Term 1 nil :: nil).
+Proof. exact square_regression. Qed.
+Print Assumptions C20_square_regression.
+
+Theorem C20_sum_regression :
+  unitary_iter 3 "U" (Some (iq :: is_ :: nil)) sum_term
+  = Some (Term (1 * 1) (Tn "e" (iq :: nil) :: nil) :: Term (1 * 1) (Tn "e" (is_ :: nil) :: nil) :: nil) /\
+  wfb "U" Gen NoSpin (iq :: is_ :: nil) sum_term = true.
+Proof. exact sum_regression. Qed.
+Print Assumptions C20_sum_regression.
 
 (* Einstein convention: a step whose remaining indices differ (and whose delta
    is not absorbed by an equal one) keeps the Einstein target indices, and
@@ -95,17 +144,19 @@ Theorem C20_unitary_step_sound_einstein :
 Proof. exact unitary_step_sound_einstein. Qed.
 Print Assumptions C20_unitary_step_sound_einstein.
 
-(* evaluate_deltas=True as coded (func.evaluate_deltas(res.sympy) without the
-   provided target indices) does not preserve the value: U_pq U_pr T_q with
-   targets (q, r) becomes T_r. *)
-Theorem C20_simplify_ed_as_coded_refuted :
-  exists (S : Scalar) (T : tmodel S) name tg t t' r0,
-    simplify_ed_as_coded 3 name (Some tg) t = Some t' /\
-    (forall sp sn, orthogonal S T name (rng T sp sn)) /\
-    (forall x, In x tg -> In (r0 x) (irange S T x)) /\
-    eval_term S T tg r0 t <> eval_term S T tg r0 t'.
-Proof. exact simplify_ed_as_coded_refuted. Qed.
-Print Assumptions C20_simplify_ed_as_coded_refuted.
+(* evaluate_deltas=True: the provided targets are handed on to
+   func.evaluate_deltas; U_pq U_pr T_q with targets (q, r) keeps delta_qr and
+   its value (before the repair it became T_r, see
+   UnitaryExamples.simplify_ed_ignoring_targets_refuted). *)
+Theorem C20_simplify_ed_regression :
+  simplify_ed_as_coded 3 "U" (Some (iq :: ir :: nil)) ed_term
+  = Some (Term 1 ((ADelta iq ir, false) :: Tn "T" (iq :: nil) :: nil) :: nil) /\
+  eval_term QcScalar Tex (iq :: ir :: nil) env_qr ed_term
+  = eval_term QcScalar Tex (iq :: ir :: nil) env_qr (Term 1 ((ADelta iq ir, false) :: Tn "T" (iq :: nil) :: nil)) /\
+  eval_term QcScalar Tex (iq :: ir :: nil) env0 ed_term
+  = eval_term QcScalar Tex (iq :: ir :: nil) env0 (Term 1 ((ADelta iq ir, false) :: Tn "T" (iq :: nil) :: nil)).
+Proof. exact simplify_ed_regression. Qed.
+Print Assumptions C20_simplify_ed_regression.
 
 (* A successful call of the model of simplify_term_unitary is a step of the
    relation ... *)
@@ -133,17 +184,20 @@ Theorem C20_untouched_spec :
 Proof. exact untouched_spec. Qed.
 Print Assumptions C20_untouched_spec.
 
-(* The pair enumeration is complete: when the pass finds nothing, no step of
-   the relation exists; hence the result of the recursion is terminal. *)
+(* The pair enumeration is complete: when the pass finds nothing, the only
+   steps of the relation are those the guard skips (remaining indices coincide
+   in a contracted index occurring nowhere else); hence every term returned by
+   the recursion is terminal in that sense. *)
 Theorem C20_unitary_pass_complete :
   forall name tg t, unitary_pass_tg name tg t = RNone ->
-    forall p q r t', ~ unitary_step name tg t p q r t'.
+    forall p q r t', unitary_step name tg t p q r t' -> skip_pair tg (term_idx t) q r = true.
 Proof. exact unitary_pass_complete. Qed.
 Print Assumptions C20_unitary_pass_complete.
 
 Theorem C20_terminal_spec :
-  forall fuel name prov t t', unitary_iter fuel name prov t = Some t' ->
-    forall p q r t'', ~ unitary_step name (targets_of prov t') t' p q r t''.
+  forall fuel name prov t out t', unitary_iter fuel name prov t = Some out -> In t' out ->
+    forall p q r t'', unitary_step name (targets_of prov t') t' p q r t'' ->
+                      skip_pair (targets_of prov t') (term_idx t') q r = true.
 Proof. exact terminal_spec. Qed.
 Print Assumptions C20_terminal_spec.
 
